@@ -108,7 +108,7 @@ Proof. exact G2_acyclic_input_has_no_upward_edge. Qed.
 Print Assumptions C03_acyclic_input_all_downward.
 
 (* ---------- every positioner, Brandes-Koepf and the NetworkSimplex positioner included (Model/PipelineBK.v) ---------- *)
-From Autog Require Import PipelineBK BKPipeline BKPipeline2.
+From Autog Require Import PipelineBK E2EBridge BKPipeline BKPipeline2.
 
 Theorem C03_component_end_to_end_any_positioner : forall bk o g g' x, component_input g -> modelled_p5 (o_p5 o) ->
   layout_component_x bk o g = Ok (g', x) -> E2_statement (o_layer_spacing o) g g'.
